@@ -52,6 +52,7 @@ def build(kind):
     item.r = cc.StringField(required=True, default="r")
     item.inner.e = leaf("Inner E")
     item.d = cc.DictField(cc.StringField(), leaf())
+    s.proto = item                        # the item schema is also mounted as an ordinary section (it then carries a key of its own)
     s.items = cc.ListField(item)
     s.backups = cc.ListField(item)
     s.ad = cc.DictField(value_field=leaf())       # any key, typed value
@@ -550,5 +551,45 @@ def _moves(job, ctx):
                 exc = attempt(lambda: schema(ad={k: bad}))
             ctx.case(("anykey", repr(k), route), "anykey:%s:%s" % (route, type(exc).__name__ if exc else "accepted"), True)
             judge(ctx, job, key, "C15|anykey|%s|%s|%s" % (kind, type(k).__name__, route), "typed dict entry with key %r via %s" % (k, route), exc, "ad[%s]" % (k,), None)
+    # a typed dict / list value of one configuration is handed to another position that uses the same field object;
+    # entries rejected later on the receiving side must be reported under the receiver's path
+    for src, dst, want in (("items[0]", "items[1]", "items[1].d[k]"), ("items[1]", "backups[0]", "backups[0].d[k]"), ("proto", "items[0]", "items[0].d[k]"),
+                           ("items[0]", "proto", "proto.d[k]")):
+        for how in ("setitem", "update", "setdefault", "ior"):
+            key = ["handover", src, dst, how]
+            if only is not None and only != key:
+                continue
+            schema, ok = build(kind)
+            okv = V.dec(ok)
+            if isinstance(okv, bytes):
+                import base64
+                okv = base64.b64encode(okv).decode()
+            bad = V.dec(bads[0])
+            cfg = schema()
+            tree = valid_tree(okv)
+            tree["backups"] = [json.loads(json.dumps(tree["items"][0])) if _j(okv) else dict(tree["items"][0])]
+            tree["proto"] = json.loads(json.dumps(tree["items"][0])) if _j(okv) else dict(tree["items"][0])
+            try:
+                cfg.load_tree(tree)
+
+                def at(p):
+                    return getattr(cfg, p.split("[")[0])[int(p[-2])] if "[" in p else getattr(cfg, p)
+                at(dst).d = at(src).d
+                target = at(dst).d
+            except Exception as exc:  # noqa
+                ctx.case(tuple(key), "handover:setup-raises", False)
+                continue
+            ctx.transitions += 1
+            if how == "setitem":
+                exc = attempt(lambda: target.__setitem__("k", bad))
+            elif how == "update":
+                exc = attempt(lambda: target.update({"k": bad}))
+            elif how == "setdefault":
+                exc = attempt(lambda: target.setdefault("k2", bad))
+            else:
+                exc = attempt(lambda: target.__ior__({"k": bad}))
+            ctx.case(tuple(key), "handover:%s:%s" % (how, type(exc).__name__ if exc else "accepted"), True)
+            judge(ctx, job, key, "C15|handover|%s|%s|%s" % (kind, dst.split("[")[0], how),
+                  "typed dict of %s assigned to %s, then a rejected entry via %s" % (src, dst, how), exc, want.replace("[k]", "[k2]") if how == "setdefault" else want, None)
     ctx.states += 1
     ctx.traces += 1
